@@ -173,12 +173,36 @@ func c01(c *an.Ctx) {
 		r := c.Rule("C01.R12", "K-ERRFLOW", "engine:(*shard).syncReplayWal — the replay callback hands the error of re-applying a record back to Replay (only SeriesLimited is cleared)")
 		if f := fn(r, E+":shard.syncReplayWal"); f != nil {
 			wbm := call(r, E+":shard.writeWalBuffer")
-			if lit := f.LitContaining(wbm); lit == nil {
+			// the callback: a literal inside syncReplayWal, or a method/function value handed to Replay
+			var g *an.Fn
+			if lit := f.LitContaining(wbm); lit != nil {
+				g = f.Lit(lit, "replayCallback")
+			} else {
+				for _, s := range f.Find(call(r, E+":WAL.Replay")).List {
+					ce := s.Node.(*ast.CallExpr)
+					for _, a := range ce.Args {
+						var fo types.Object
+						switch x := ast.Unparen(a).(type) {
+						case *ast.SelectorExpr:
+							fo = f.Info.Uses[x.Sel]
+						case *ast.Ident:
+							fo = f.Info.Uses[x]
+						}
+						if fnObj, ok := fo.(*types.Func); ok {
+							if cs := c.P.Src(fnObj); cs != nil {
+								if cand := c.P.Fn(cs); cand != nil && cand.Find(wbm).Len() > 0 {
+									g = cand
+								}
+							}
+						}
+					}
+				}
+			}
+			if g == nil {
 				if !r.Failed() {
 					r.Fail(f.Name+": callback", c.P.Pos(f.Body.Pos()), "the replay callback no longer applies the record through writeWalBuffer")
 				}
 			} else if !r.Failed() {
-				g := f.Lit(lit, "replayCallback")
 				wb := g.Find(wbm)
 				r.AddSites(wb.Len())
 				for _, s := range wb.List {
